@@ -56,6 +56,11 @@ func (et *ExecuteTimeout) Handler(ctx context.Context, name string, args []inter
 	defer cancel()
 	c := make(chan returnValue, 1)
 	go func() {
+		defer func() {
+			if p := recover(); p != nil {
+				c <- returnValue{nil, core.NewPanicError(p)}
+			}
+		}()
 		result, err := next(ctx, name, args)
 		c <- returnValue{result, err}
 	}()
